@@ -486,7 +486,11 @@ func (l *commitLog) NewLeaderEpoch(epoch uint64) error {
 // equals the provided one.
 func (l *commitLog) LastOffsetForLeaderEpoch(epoch uint64) int64 {
 	offset := l.leaderEpochCache.LastOffsetForLeaderEpoch(epoch)
-	if offset == -1 {
+	// -1 means there is no larger leader epoch, but it is also the start
+	// offset recorded by a leader that was elected on an empty log. Only fall
+	// back to the log end offset in the former case, otherwise a follower that
+	// wrote under an older epoch would be told to keep its whole log.
+	if offset == -1 && epoch >= l.leaderEpochCache.LastLeaderEpoch() {
 		offset = l.activeSegment().NextOffset() - 1
 	}
 	return offset
